@@ -4,7 +4,7 @@ cd /verif
 for pair in "$@"; do
   seed=${pair%%:*}; chk=${pair##*:}
   echo "=== $seed -> $chk $(date +%H:%M:%S)" >> work/seed_regression.log
-  tools/try_seed.sh seeded/$seed/patch.diff $chk 2>&1 | grep -E "^exit|does not apply|dirty" >> work/seed_regression.log
+  tools/try_seed.sh /verif/seeded/$seed/patch.diff $chk 2>&1 | grep -E "^exit|does not apply|dirty" >> work/seed_regression.log
   n=$(grep -c "^VIOLATION" work/seed_$chk.log 2>/dev/null)
   echo "    violations: $n" >> work/seed_regression.log
 done
